@@ -235,15 +235,16 @@ ElemAttribute::startElement(StylesheetExecutionContext& executionContext) const
                     {
                         substring(origAttrName, newPrefix, 0, indexOfNSSep);
 
-                        // OK, make sure that the prefix provided maps to
-                        // the same namespace as the one the user requested,
-                        // and see if it's in use...
+                        // OK, make sure that the prefix provided is not bound
+                        // to another namespace than the one the user requested.
+                        // It cannot be re-declared safely, even if nothing on
+                        // the pending element uses it yet: the literal attributes
+                        // of an element are added after its attribute sets.
                         const XalanDOMString* const theNamespace =
                             executionContext.getResultNamespaceForPrefix(newPrefix);
 
                         if (theNamespace != 0 &&
-                            equals(*theNamespace, attrNameSpace) == false &&
-                            executionContext.isPendingResultPrefix(newPrefix) == true)
+                            equals(*theNamespace, attrNameSpace) == false)
                         {
                             // It doesn't, so we'll need to manufacture a
                             // prefix.
@@ -545,15 +546,16 @@ ElemAttribute::execute(StylesheetExecutionContext&  executionContext) const
                     {
                         substring(origAttrName, newPrefix, 0, indexOfNSSep);
 
-                        // OK, make sure that the prefix provided maps to
-                        // the same namespace as the one the user requested,
-                        // and see if it's in use...
+                        // OK, make sure that the prefix provided is not bound
+                        // to another namespace than the one the user requested.
+                        // It cannot be re-declared safely, even if nothing on
+                        // the pending element uses it yet: the literal attributes
+                        // of an element are added after its attribute sets.
                         const XalanDOMString* const theNamespace =
                             executionContext.getResultNamespaceForPrefix(newPrefix);
 
                         if (theNamespace != 0 &&
-                            equals(*theNamespace, attrNameSpace) == false &&
-                            executionContext.isPendingResultPrefix(newPrefix) == true)
+                            equals(*theNamespace, attrNameSpace) == false)
                         {
                             // It doesn't, so we'll need to manufacture a
                             // prefix.
